@@ -709,6 +709,11 @@ pub fn gen_output_case(r: &mut Rng, thorough: bool) -> Case {
     if r.chance(1, 25) {
         crate::gen::without_epb_use(&mut case.spec, r);
     }
+    // several biomass DHW systems (either kind of biomass) without declared output: the error text saved in the
+    // JSON / printed in the report must be the same on every run
+    if r.chance(1, 25) {
+        crate::gen::plant_undeclared_biomass_dhw(&mut case.spec, r);
+    }
     // negative and large values
     match r.below(8) {
         0 => {
